@@ -84,6 +84,28 @@ CHECKS["C19"] = dict(
     technique="Lean 4 theorems over character-level models of the formatters/parsers + differential correspondence against the library and the platform parser",
     design="§5 C19")
 
+CHECKS["C16"] = dict(
+    text="Proof (generic, any number of threads, any paths): if every access of every thread is guarded (reads under R or W of the table's lock, writes under W) "
+         "no reachable state of the interleaving semantics has two conflicting accesses of different threads enabled (guarded_no_race); the abstract "
+         "value of a table changes only in steps of the thread holding its write lock and is constant during any read section (writes_only_under_W, "
+         "read_section_snapshot); the path-insensitive checker wellLocked is sound. Generated each run from the clang AST of trie-pfx.c, trie.c, "
+         "ht-spkitable.c: every public function is well locked (decide over the whole table) hence api_no_race / api_reads_snapshot. PARTIAL: full "
+         "serialisability (linearization point = lock acquisition composed with the sequential correctness of C01/C02/C10) is stated but only its "
+         "snapshot part is proved (reads_linearizable_partial). Failing-input search: TSan stress harness, N readers + 1 writer, version-window oracle.",
+    note=TB + "POSIX rwlock semantics as coded in the model; distinct table parameters are distinct tables; user callbacks do not touch table state; "
+         "gen_locks.py incl. its effect table for tommyds/libc entry points; ThreadSanitizer on the implementation side.",
+    technique="Lean 4 proofs over an interleaving semantics + lock IR regenerated from the source (translator) + TSan stress",
+    design="§5 C16")
+CHECKS["C06"] = dict(
+    text="Proof, per live table: the reload (copy_except_socket into a private shadow, fill, one swap under both write locks, notify_diff, free) "
+         "write-locks the live table exactly once; in every interleaving every reader section observes the complete old or the complete new contents, never "
+         "new then old (reload_two_states, never_new_then_old, stable_answers); the reload call sequence is extracted from packets.c and compared by rfl. "
+         "PARTIAL: atomicity is per table - prefix table and router-key table are swapped in two critical sections (model witness cross_table_gap, "
+         "demonstrated on the real code, recorded as known finding C06/cross-table).",
+    note=TB + "as C16; the purge path after a failed undo writes the live tables without a swap (C03's domain) and is outside this model.",
+    technique="Lean 4 proofs over the lock IR of the reload path regenerated from the source + TSan stress with two-state/monotonicity oracle",
+    design="§5 C06")
+
 NOT_YET = {}
 
 
